@@ -88,7 +88,17 @@ XOf(flat, i, fuel) ==
 (***************************************************************************)
 InitScope(iv) == [x \in VarNames |-> IF x = "u" THEN UNDEF ELSE iv]
 St0(iv) == [sc |-> <<InitScope(iv)>>, items |-> <<>>, unr |-> <<>>, rng |-> 0,
-        err |-> "-", specs |-> FALSE, inl |-> 0, refs |-> {}, px |-> 0]
+        err |-> "-", specs |-> FALSE, inl |-> 0, refs |-> {}, px |-> 0,
+        lim |-> [dl |-> 0, ll |-> 0, vl |-> 0]]      \* filled in by Ideal
+
+\* <config depth-limit / loop-limit / var-limit>: limits can be set from the document
+RECURSIVE ApplyConfig(_, _)
+ApplyConfig(lim, loc) ==
+    IF loc = <<>> THEN lim
+    ELSE LET k == Head(loc)[1]  v == Head(loc)[2]
+             l2 == CASE k = "dl" -> [lim EXCEPT !.dl = v] [] k = "ll" -> [lim EXCEPT !.ll = v]
+                     [] k = "vl" -> [lim EXCEPT !.vl = v] [] OTHER -> lim
+         IN ApplyConfig(l2, Tail(loc))
 
 RECURSIVE EvList(_, _, _, _), EvNode(_, _, _, _), EvLoop(_, _, _, _, _, _)
 
@@ -101,7 +111,7 @@ EvList(list, st, d, C) ==
 EvKids(nd, st, d, C) == EvList(nd.ch, [st EXCEPT !.unr = <<>>], d, C)
 
 EvNode(nd, st, d, C) ==
-    IF d + 1 > C.dl THEN [st EXCEPT !.err = "depth"]
+    IF d + 1 > st.lim.dl THEN [st EXCEPT !.err = "depth"]
     ELSE
     CASE nd.k = "leaf" ->
            LET v == IF nd.rd = "-" THEN nd.val ELSE Lookup(st.sc, nd.rd)
@@ -130,7 +140,7 @@ EvNode(nd, st, d, C) ==
                          !.inl = st.inl,
                          !.unr = Append(st.unr, cp)]
       [] nd.k = "var" ->
-           IF C.str /\ MaxAssigned(nd.asg, st.sc) > C.vl
+           IF C.str /\ MaxAssigned(nd.asg, st.sc) > st.lim.vl
            THEN [st EXCEPT !.err = "var"]
            ELSE [st EXCEPT !.sc = AssignTop(@, nd.asg), !.unr = Append(@, nd)]
       [] nd.k = "if" ->
@@ -138,6 +148,7 @@ EvNode(nd, st, d, C) ==
            THEN LET s2 == EvKids(nd, st, d + 1, C)
                 IN [s2 EXCEPT !.unr = st.unr \o s2.unr]
            ELSE st
+      [] nd.k = "config" -> [st EXCEPT !.lim = ApplyConfig(@, nd.loc), !.unr = Append(@, nd)]
       [] nd.k = "loop" -> EvLoop(nd, st, d, C, 0, nd.start)
       [] nd.k = "specs" ->
            IF st.specs THEN [st EXCEPT !.err = "document"]
@@ -173,7 +184,7 @@ EvLoop(nd, st, d, C, it, lvv) ==
              s2 == [s1 EXCEPT !.unr = st.unr \o bind \o s1.unr]
              stop == nd.form = "until" /\ s2.err = "-" /\ EvalE(nd.cond, s2.sc) # 0
          IN IF s2.err # "-" \/ stop THEN s2
-            ELSE IF it + 1 > C.ll THEN [s2 EXCEPT !.err = "loop"]
+            ELSE IF it + 1 > s2.lim.ll THEN [s2 EXCEPT !.err = "loop"]
             ELSE EvLoop(nd, s2, d, C, it + 1, lvv + nd.step)
 
 \* reference graph of the rendered leaves: unsatisfiable when a target is
@@ -190,7 +201,7 @@ RefsOK(refs, doc) ==
 Ideal(doc, C0) ==
     LET C == [doc |-> doc, dl |-> C0.dl, ll |-> C0.ll, vl |-> C0.vl, str |-> C0.str, iv |-> C0.iv,
               rc |-> C0.rc, regs |-> RegStatic(doc), flat |-> Flatten(doc)]
-        s == EvList(doc, St0(C.iv), 0, C)
+        s == EvList(doc, [St0(C.iv) EXCEPT !.lim = [dl |-> C0.dl, ll |-> C0.ll, vl |-> C0.vl]], 0, C)
         res == IF s.err # "-" THEN s.err
                ELSE IF ~RefsOK(s.refs, doc) THEN "ref"
                ELSE "ok"
